@@ -153,6 +153,21 @@ theorem signaller_not_blocked {s : State} {w : Nat} (hw : w < s.cfg.nw) (h : inf
   simp only [step, hw, decide_true, if_true]
   exact inflight_can_step h
 
+/-- a waker thread that holds an id (passed the SCHEDULED check, not pushed yet) or has pushed and is about to wake the
+driver always has an enabled step: the only "waiting" in `Remote::schedule` is the spin loop, which is a step -/
+theorem pusher_not_blocked {s : State} {w t : Nat} (hw : w < s.cfg.nw)
+    (h : holdsP t (s.wk w) = true ∨ (aboutP (s.wk w) = true ∧ (s.wk w).kind = .task t)) :
+    (step s (.w w)).isSome = true := by
+  simp only [step, hw, decide_true, if_true]
+  unfold wStep
+  rcases h with h | ⟨h, hk⟩
+  · simp only [holdsP, Bool.and_eq_true, Bool.or_eq_true, beq_iff_eq, Bool.not_eq_true'] at h
+    obtain ⟨⟨hk, _⟩, hpc⟩ := h
+    rcases hpc with ((((((hpc | hpc) | hpc) | hpc) | hpc) | hpc) | hpc) <;> simp only [hpc, hk] <;> (repeat' split) <;> simp
+  · simp only [aboutP, Bool.and_eq_true, beq_iff_eq] at h
+    simp only [h.2, hk]
+    (repeat' split) <;> simp
+
 /-! ### (ii) bounded progress of the runtime thread alone -/
 
 theorem reachable_cfg {cfg : Cfg} {s : State} (h : Reachable cfg s) : s.cfg = cfg := by
